@@ -193,7 +193,7 @@ class EnvWorld:
                 self.env = SingleJobShopGraphEnv(job_shop_graph=self.builder(self.inst), **self.kw)
                 self.bind_model()
         except Exception as e:  # noqa: BLE001
-            own = owner_of_exception(e, owner)
+            own = "C18" if ctx.prop == "C18" else owner_of_exception(e, owner)
             self.lib_error(own, "env_constructor_raised", f"constructing the {cfg['env']} env raised {short_exc(e)}", exc=type(e).__name__)
             self.dead = True
 
@@ -226,7 +226,7 @@ class EnvWorld:
         try:
             obs, info = self.env.reset()
         except Exception as e:  # noqa: BLE001
-            own = owner_of_exception(e, "C18")
+            own = "C18" if self.ctx.prop == "C18" else owner_of_exception(e, "C18")  # for C18 the environment is the unit under test
             import traceback
 
             where = "add_padding" if any(f.name == "add_padding" for f in traceback.extract_tb(e.__traceback__)) else "other"
@@ -271,7 +271,7 @@ class EnvWorld:
         try:
             out = self.env.step(act)
         except Exception as e:  # noqa: BLE001
-            own = owner_of_exception(e, "C18")
+            own = "C18" if self.ctx.prop == "C18" else owner_of_exception(e, "C18")
             self.lib_error(own, "env_step_raised", f"env.step({act}) raised {short_exc(e)} for a legal action", exc=type(e).__name__)
             self.dead = True
             return None
